@@ -317,7 +317,9 @@ def corpus_cases(max_bytes, nops):
         p = os.path.join(d, name)
         if not name.endswith(".cif") or os.path.getsize(p) > max_bytes:
             continue
-        for k, op in enumerate(CORPUS_OPS[:nops] if os.path.getsize(p) else CORPUS_OPS[:2]):
+        # large files are costly to validate (both documents go to TLC): the two everyday operations only
+        n_ops = 2 if os.path.getsize(p) == 0 or os.path.getsize(p) > 250_000 else nops
+        for k, op in enumerate(CORPUS_OPS[:n_ops]):
             if op["kind"] == "replace" and _distinct_values(p, op) > len(op["alpha"]):
                 continue
             cases.append({"id": f"c{len(cases):03d}", "src": "corpus", "file": name, "op": op})   # short ids: TLC wraps long lines
